@@ -27,7 +27,9 @@ def one(pf):
                 return pf, "PATCH-FAILED", r.stdout
         r = subprocess.run([os.path.join(VERIF, "bin", "xv"), "check-all"], env=dict(os.environ, XV_REPO=s), cwd=VERIF, stdout=subprocess.PIPE,
                            stderr=subprocess.STDOUT, text=True)
-        bad = [l for l in r.stdout.splitlines() if re.match(r"RC C\d\d [12]", l)]
+        bad = [l for l in r.stdout.splitlines() if re.match(r"RC C\d\d [12]", l) or l.startswith("ANALYSIS-BROKEN") or l.startswith("Traceback")]
+        if r.returncode != 0 and not bad:
+            bad = ["exit code %d" % r.returncode]
         det = [l for l in r.stdout.splitlines() if l.startswith("  rule=") or l.startswith("ANALYSIS-BROKEN")]
         return pf, ("silent" if not bad else "ALARM " + " ".join(bad)), "\n".join(sorted(set(det)))
     finally:
